@@ -38,6 +38,14 @@ def lendet(w,n):
     if n<128: w.put(n,8)
     elif n<16384: w.put(0x8000|n,16)
     else: raise Frag()
+def lv_octets(w,data):
+    """general length determinant + contents, with fragmentation (X.691 10.9.3.8): blocks of m*16K octets (m = 4..1), each
+    preceded by the octet 11000mmm, then the remainder (possibly empty) with an ordinary length determinant"""
+    n=len(data); i=0
+    while n-i>=16384:
+        m=min((n-i)//16384,4); w.align(); w.put(0xC0|m,8); w.bytes_(data[i:i+m*16384]); i+=m*16384
+    lendet(w,n-i)
+    if n-i: w.align(); w.bytes_(data[i:])
 def unconstrained(w,v):
     k=octs_signed(v); lendet(w,k); w.put(v%(1<<(8*k)),8*k)
 def semi(w,n):
@@ -72,6 +80,8 @@ def enc_octets(w,lb,ub,ext,data):
         if n<=2: w.bytes_(data)
         else: w.align(); w.bytes_(data)
         return True
+    if ub is None or ub>=65536:
+        if lb0==0: lv_octets(w,data); return True
     enc_len(w,lb0,ub,n)
     if n: w.align(); w.bytes_(data)
     return True
